@@ -649,7 +649,7 @@ var dlEvents = []string{"arrive", "hstart", "hwrong", "endok", "enderr", "endcut
 type scriptedRequestor struct {
 	sync.Mutex
 	avail    bool
-	behave   []string // per RequestBlock call: ok | fail | hang | wrong
+	behave   []string // per RequestBlock call: ok | fail | hang | never | wrong
 	calls    int
 	active   int
 	maxSeen  int
@@ -658,6 +658,7 @@ type scriptedRequestor struct {
 		txs []*wire.MsgTx
 	}
 	okDone map[bitcoin.Hash32]int
+	slowCancel bool
 }
 
 type scriptedCanceller struct {
@@ -671,6 +672,12 @@ type scriptedCanceller struct {
 
 func (c *scriptedCanceller) ID() uuid.UUID { return c.id }
 func (c *scriptedCanceller) CancelBlockRequest(ctx context.Context, h bitcoin.Hash32) bool {
+	c.r.Lock()
+	slow := c.r.slowCancel
+	c.r.Unlock()
+	if slow { // the peer's connection takes a moment to act on the cancel
+		time.Sleep(time.Millisecond)
+	}
 	c.mu.Lock()
 	defer c.mu.Unlock()
 	if c.started && !c.closed {
@@ -734,6 +741,7 @@ func (r *scriptedRequestor) RequestBlock(ctx context.Context, hash bitcoin.Hash3
 				}
 				c.mu.Unlock()
 			}()
+		case "never": // a source that never delivers: only a cancel ends the download
 		case "hang": // slow source: delivers after 50 ms unless it was cancelled before
 			go func() {
 				time.Sleep(50 * time.Millisecond)
@@ -806,7 +814,11 @@ func runMgr(c *Case) {
 			req.Lock()
 			req.behave = append(req.behave, parts[1:]...)
 			req.Unlock()
-		case "request", "request_abort", "request_late":
+		case "slowcancel":
+			req.Lock()
+			req.slowCancel = true
+			req.Unlock()
+		case "request", "request_abort", "request_abort_never", "request_late":
 			blockN++
 			h, txs := mkBlock(uint32(c.ID*10+blockN), 3)
 			req.Lock()
@@ -815,6 +827,35 @@ func runMgr(c *Case) {
 				txs []*wire.MsgTx
 			}{h, txs}
 			req.Unlock()
+			if parts[0] != "request_abort_never" {
+				// sources that never deliver are for the aborted request they were scripted for only
+				req.Lock()
+				if req.calls < len(req.behave) {
+					kept := append([]string{}, req.behave[:req.calls]...)
+					for _, b := range req.behave[req.calls:] {
+						if b != "never" {
+							kept = append(kept, b)
+						}
+					}
+					req.behave = kept
+				}
+				req.Unlock()
+			}
+			if parts[0] == "request_abort_never" {
+				// no source of this request ever delivers: each of its downloads ends only by the
+				// cancel that follows the abort
+				req.Lock()
+				if req.calls < len(req.behave) {
+					req.behave = req.behave[:req.calls]
+				}
+				for len(req.behave) < req.calls {
+					req.behave = append(req.behave, "ok")
+				}
+				for k := 0; k < 12; k++ {
+					req.behave = append(req.behave, "never")
+				}
+				req.Unlock()
+			}
 			if parts[0] == "request_late" {
 				// every source of this request is slow (delivers after 50 ms)
 				req.Lock()
@@ -830,6 +871,10 @@ func runMgr(c *Case) {
 			complete, abort := m.AddRequest(ctx, *h.BlockHash(), 100+blockN, proc)
 			if parts[0] == "request_abort" {
 				time.Sleep(8 * time.Millisecond)
+				close(abort)
+			}
+			if parts[0] == "request_abort_never" {
+				time.Sleep(35 * time.Millisecond) // the manager has started all its concurrent downloads (one per 5 ms poll)
 				close(abort)
 			}
 			if parts[0] == "request_late" && len(results) > 0 {
@@ -983,8 +1028,21 @@ func main() {
 			}
 		}
 		for i := 0; i < *n/15+2 && *profile == "C16"; i++ {
-			conc := 1 + r.Intn(3)
+			conc := 1 + r.Intn(5)
 			var ops []string
+			if r.Chance(1, 3) {
+				ops = append(ops, "slowcancel")
+			}
+			if r.Chance(1, 4) { // several downloads of an aborted request, all to be cancelled, slow peers
+				conc = 3 + r.Intn(3)
+				ops = []string{"slowcancel"}
+				if r.Chance(1, 2) {
+					ops = append(ops, "behave:ok:ok:ok:ok:ok:ok", "request")
+				}
+				ops = append(ops, "request_abort_never")
+				cases = append(cases, Case{ID: len(cases), Kind: "mgr", Ops: ops, Conc: conc})
+				continue
+			}
 			for j := 0; j < 1+r.Intn(3); j++ {
 				b := "behave"
 				for k := 0; k < 1+r.Intn(4); k++ {
@@ -993,7 +1051,11 @@ func main() {
 				ops = append(ops, b+":ok:ok:ok")
 				switch {
 				case r.Chance(1, 4):
-					ops = append(ops, "request_abort")
+					if r.Chance(1, 2) { // sources that never deliver: every download of the aborted request has to be cancelled
+						ops = append(ops, "request_abort_never")
+					} else {
+						ops = append(ops, "request_abort")
+					}
 				case j > 0 && r.Chance(1, 2):
 					// slow sources for this request, and a late finisher of the previous one
 					ops[len(ops)-1] = "behave:hang:hang:hang:hang"
